@@ -87,9 +87,19 @@ func (g *wgen) localVar() string {
 	if r.Chance(1, 5) {
 		mods = "final "
 	}
-	if r.Chance(1, 8) {
+	if r.Chance(1, 6) {
 		g.use("annotation-on-local")
-		mods += g.anno(1) + " "
+		if r.Bool() {
+			mods += g.anno(1) + " "
+		} else {
+			mods = g.anno(1) + " " + mods
+		}
+		if r.Chance(1, 4) {
+			mods += "final "
+			if strings.Count(mods, "final") > 1 {
+				mods = strings.Replace(mods, "final ", "", 1)
+			}
+		}
 	}
 	switch r.Intn(8) {
 	case 0:
